@@ -68,6 +68,7 @@ func TestVerif_C11_SelectedPairStream(t *testing.T) {
 		var script []string
 		nSteps := rapid.IntRange(2, 10).Draw(rt, "nSteps")
 		restarts, renoms := 0, 0
+		lblReselect := false
 		for i := 0; i < nSteps; i++ {
 			op := rapid.SampledFrom([]string{"rounds", "rounds", "restart", "renominate"}).Draw(rt, "op")
 			switch op {
@@ -100,11 +101,11 @@ func TestVerif_C11_SelectedPairStream(t *testing.T) {
 				}
 				p := valid[rapid.IntRange(0, len(valid)-1).Draw(rt, "pair")]
 				if p == A.selectedPair() {
-					continue // (whether re-selecting the selected pair is an event is not stated: not generated)
+					lblReselect = true // renominating the selected pair changes nothing: no event
 				}
 				_ = A.a.RenominateCandidate(p.Local, p.Remote)
 				sample()
-				step() // (settled before the next operation, so that the selected pair is never renominated again)
+				step()
 				renoms++
 				script = append(script, "renominate")
 			}
@@ -114,7 +115,7 @@ func TestVerif_C11_SelectedPairStream(t *testing.T) {
 		}
 		d.w.settle()
 		desc := fmt.Sprintf("%s | %s", c, strings.Join(script, "; "))
-		st.Record(vfHashStr(desc), restarts > 0 && c.ReusePorts, fmt.Sprintf("restarts:%d", min(restarts, 3)), fmt.Sprintf("renominations:%d", min(renoms, 3)), fmt.Sprintf("same-addresses-after-restart:%v", c.ReusePorts))
+		st.Record(vfHashStr(desc), restarts > 0 && c.ReusePorts, fmt.Sprintf("restarts:%d", min(restarts, 3)), fmt.Sprintf("renominations:%d", min(renoms, 3)), fmt.Sprintf("same-addresses-after-restart:%v", c.ReusePorts), fmt.Sprintf("selected-pair-renominated:%v", lblReselect))
 		if restarts > 0 && st.WantSample() {
 			st.Sample(func() string { return desc })
 		}
